@@ -151,6 +151,7 @@ def register(reg):
     reg.binop_fallback = none_binop
     register_support_interval(reg)
     register_handlers(reg)
+    register_operator_node(reg)
 
 
 # ------------------------------------------------------------------------------------------------
@@ -413,4 +414,259 @@ def replay_handler(inputs, clause):
     if v != x:
         sym = {"__floordiv__": "//", "__truediv__": "/", "__pow__": "**", "__add__": "+", "__radd__": "+", "__sub__": "-", "__mul__": "*", "__rmul__": "*"}.get(op, op)
         return f"X {sym} {c!r} is simplified to X (the very same node), but for the sample X = {x!r} Python gives {v!r}"
+    return None
+
+
+# ------------------------------------------------------------------------------------------------
+# (3) OperatorDistribution.sampleGiven / evaluateInner / __init__: homomorphism
+
+REVERSE_OF = {"__add__": "__radd__", "__rsub__": "__sub__", "__mul__": "__rmul__", "__rtruediv__": "__truediv__", "__pow__": "__rpow__"}
+SYMBOL_OF = {"__add__": "+", "__rsub__": "-", "__mul__": "*", "__rtruediv__": "/", "__pow__": "**"}
+
+
+def install_value_in_context(reg):
+    """valueInContext at call sites inside other carriers: an abstract, logged evaluation (its own contract is below)."""
+
+    def vic(I, value, context):
+        memo = I.__dict__.setdefault("vic_memo", {})
+        I.__dict__.setdefault("vic_log", []).append((value, context))
+        if id(value) not in memo:
+            memo[id(value)] = (value, PObj("ValueInContext", tag=f"ctx({getattr(value, 'tag', value)})"))
+        return memo[id(value)][1]
+
+    reg.models[f"{L}:valueInContext"] = vic
+    reg.trust("lazy_eval.valueInContext (at call sites inside evaluateInner carriers)", "abstract logged function of (value, context); the real function has its own contract")
+
+
+def reset_vic(I):
+    I.vic_memo, I.vic_log = {}, []
+
+
+def vic_of(I, value):
+    m = I.vic_memo.get(id(value))
+    return None if m is None else m[1]
+
+
+def register_operator_node(reg):
+    install_value_in_context(reg)
+    OD = f"{D}:OperatorDistribution"
+
+    # ---------------------------------------------------------------- sampleGiven
+    SHAPES = ["__add__", "__rsub__", "__mul__", "__getitem__", "__call__", "method_with_keywords"]
+
+    def setup_sg(I, env):
+        eng = I.eng
+        shape = SHAPES[eng.choose(len(SHAPES), "operator shape")]
+        op = "__call__" if shape == "method_with_keywords" else shape
+        npos = 2 if shape == "method_with_keywords" else (0 if shape == "__call__" and False else 1)
+        kwnames = ["beta", "alpha"] if shape == "method_with_keywords" else []
+        reversible = op in REVERSE_OF
+        calls = []
+        R, R2 = PObj("Result", tag="forward result"), PObj("Result", tag="reverse result")
+        fwd_ni = reversible and eng.choose(2, "forward returns NotImplemented?") == 1
+        rev_ni = fwd_ni and eng.choose(2, "reverse returns NotImplemented?") == 1
+        first = PObj("SampledObject", tag="v(object)")
+
+        def forward(*a, **k):
+            calls.append(("forward", a, k))
+            return NotImplemented if fwd_ni else R
+
+        first.fields[op] = BuiltinFn(op, forward)
+        keys = [PObj("RandomOperand", tag=f"operand{i}") for i in range(npos)]
+        vals = [PObj("SampledOperand", tag=f"v(operand{i})") for i in range(npos)]
+        if reversible:
+
+            def reverse(*a, **k):
+                calls.append(("reverse", a, k))
+                return NotImplemented if rev_ni else R2
+
+            vals[0].fields[REVERSE_OF[op]] = BuiltinFn(REVERSE_OF[op], reverse)
+        kwkeys = [PObj("RandomOperand", tag=f"kw:{n}") for n in kwnames]
+        kwvals = [PObj("SampledOperand", tag=f"v(kw:{n})") for n in kwnames]
+        objk = PObj("RandomOperand", tag="object")
+        self = env.vars["self"]
+        self.fields.update(operator=op, object=objk, operands=tuple(keys), kwoperands=PDict(list(zip(kwnames, kwkeys))), symbol=SYMBOL_OF.get(op), reverse=REVERSE_OF.get(op))
+        env.vars["value"] = identity_map(I, [(objk, first)] + list(zip(keys, vals)) + list(zip(kwkeys, kwvals)))
+        env.vars.update(_calls=calls, _R=R, _R2=R2, _fwd_ni=fwd_ni, _rev_ni=rev_ni, _first=first, _vals=vals, _kw=list(zip(kwnames, kwvals)), _reversible=reversible)
+        eng.input_syms.append(("shape", C.Const(None), shape))
+        eng.input_syms.append(("forward_not_implemented", C.Const(None), fwd_ni))
+        eng.input_syms.append(("reverse_not_implemented", C.Const(None), rev_ni))
+
+    def post_sg(I, env, outcome):
+        eng = I.eng
+        name = "distributions.OperatorDistribution.sampleGiven"
+        v = env.vars
+        calls, vals, kw = v["_calls"], v["_vals"], v["_kw"]
+        fw = [c for c in calls if c[0] == "forward"]
+        rv = [c for c in calls if c[0] == "reverse"]
+        eng.check(f"{name}#ensures.operation_applied_exactly_once_to_the_sampled_object", len(fw) == 1 and calls[0][0] == "forward")
+        if len(fw) == 1:
+            a, k = fw[0][1], fw[0][2]
+            eng.check(f"{name}#ensures.positional_operands_are_the_sampled_operands_in_order", len(a) == len(vals) and all(x is y for x, y in zip(a, vals)))
+            eng.check(f"{name}#ensures.keyword_operands_keep_their_names", sorted(k) == sorted(n for n, _ in kw) and all(k.get(n) is val for n, val in kw))
+        if not v["_fwd_ni"]:
+            eng.check(f"{name}#ensures.result_is_what_the_operation_returned", outcome[0] == "return" and outcome[1] is v["_R"])
+            eng.check(f"{name}#ensures.no_reverse_call_unless_NotImplemented", len(rv) == 0)
+            return
+        ok = len(rv) == 1 and len(rv[0][1]) == 1 and rv[0][1][0] is v["_first"] and not rv[0][2]
+        eng.check(f"{name}#ensures.reflected_operation_called_on_the_operand_with_the_object", ok)
+        if v["_rev_ni"]:
+            eng.check(f"{name}#raises.TypeError_when_both_operations_return_NotImplemented", outcome[0] == "raise" and exc_name(outcome[1]) == "TypeError")
+        else:
+            eng.check(f"{name}#ensures.result_is_what_the_reflected_operation_returned", outcome[0] == "return" and outcome[1] is v["_R2"])
+
+    reg.add(
+        C.Contract(
+            f"{OD}.sampleGiven",
+            params=dict(self=C.Obj(OD), value=C.Const(None)),
+            setup=setup_sg,
+            post=post_sg,
+            raises=[C.Raises("TypeError", mode="may")],
+            inline=["DefaultIdentityDict.__getitem__"],
+            replay=replay_operator_sample,
+            properties=("C05",),
+        )
+    )
+
+    # ---------------------------------------------------------------- evaluateInner
+    def setup_ei(I, env):
+        eng = I.eng
+        reset_vic(I)
+        npos = eng.choose(3, "number of positional operands")
+        nkw = eng.choose(3, "number of keyword operands")
+        kwnames = ["beta", "alpha"][:nkw]
+        self = env.vars["self"]
+        objk = PObj("LazyOperand", tag="object")
+        keys = [PObj("LazyOperand", tag=f"operand{i}") for i in range(npos)]
+        kwkeys = [PObj("LazyOperand", tag=f"kw:{n}") for n in kwnames]
+        self.fields.update(operator="__call__", object=objk, operands=tuple(keys), kwoperands=PDict(list(zip(kwnames, kwkeys))), symbol=None, reverse=None)
+        ctx = PObj("Context", tag="context")
+        env.vars["context"] = ctx
+        env.vars.update(_obj=objk, _keys=keys, _kw=list(zip(kwnames, kwkeys)), _ctx=ctx)
+        eng.input_syms.append(("positional", C.Const(None), npos))
+        eng.input_syms.append(("keywords", C.Const(None), kwnames))
+
+    def post_ei(I, env, outcome):
+        eng = I.eng
+        name = "distributions.OperatorDistribution.evaluateInner"
+        if outcome[0] != "return":
+            return
+        v = env.vars
+        res = outcome[1]
+        ok = isinstance(res, PObj) and getattr(res.cls, "name", None) == "OperatorDistribution"
+        eng.check(f"{name}#ensures.builds_an_operator_node", ok)
+        if not ok:
+            return
+        f = res.fields
+        eng.check(f"{name}#ensures.same_operator", f["operator"] == "__call__")
+        eng.check(f"{name}#ensures.object_is_the_context_value_of_the_object", f["object"] is vic_of(I, v["_obj"]) and f["object"] is not None)
+        eng.check(f"{name}#ensures.operands_are_the_context_values_of_the_corresponding_operands", len(f["operands"]) == len(v["_keys"]) and all(a is vic_of(I, k) for a, k in zip(f["operands"], v["_keys"])))
+        kws = f["kwoperands"]
+        eng.check(f"{name}#ensures.keyword_names_preserved_in_order", list(kws.keys) == [n for n, _ in v["_kw"]])
+        eng.check(f"{name}#ensures.keyword_operands_are_the_context_values_of_the_corresponding_operands", len(kws.vals) == len(v["_kw"]) and all(a is vic_of(I, k) for a, (_, k) in zip(kws.vals, v["_kw"])))
+        eng.check(f"{name}#ensures.everything_evaluated_in_the_given_context", all(c is v["_ctx"] for _, c in I.vic_log))
+
+    reg.add(
+        C.Contract(
+            f"{OD}.evaluateInner",
+            params=dict(self=C.Obj(OD), context=C.Const(None)),
+            setup=setup_ei,
+            post=post_ei,
+            replay=replay_operator_evaluate,
+            properties=("C05",),
+        )
+    )
+
+
+def replay_operator_sample(inputs, clause):
+    """Real OperatorDistribution.sampleGiven on recording operands."""
+    from scenic.core.distributions import OperatorDistribution
+    from scenic.core.utils import DefaultIdentityDict
+
+    shape = inputs.get("shape")
+    op = "__call__" if shape == "method_with_keywords" else shape
+    fwd_ni, rev_ni = bool(inputs.get("forward_not_implemented")), bool(inputs.get("reverse_not_implemented"))
+    calls = []
+
+    class Rec:
+        def __init__(self, tag):
+            self.tag = tag
+
+        def __repr__(self):
+            return self.tag
+
+    first = Rec("v(object)")
+    npos = 2 if shape == "method_with_keywords" else 1
+    kwn = ["beta", "alpha"] if shape == "method_with_keywords" else []
+    vals = [Rec(f"v(operand{i})") for i in range(npos)]
+    kwv = {n: Rec(f"v(kw:{n})") for n in kwn}
+
+    def fwd(*a, **k):
+        calls.append(("forward", a, k))
+        return NotImplemented if fwd_ni else "R"
+
+    def rev(*a, **k):
+        calls.append(("reverse", a, k))
+        return NotImplemented if rev_ni else "R2"
+
+    setattr(first, op, fwd)
+    if op in REVERSE_OF:
+        setattr(vals[0], REVERSE_OF[op], rev)
+
+    class Leaf:
+        pass
+
+    from scenic.core.distributions import Distribution
+
+    class Key(Distribution):
+        def __init__(self):
+            super().__init__()
+
+    objk, keys, kwk = Key(), [Key() for _ in vals], {n: Key() for n in kwn}
+    node = OperatorDistribution(op, objk, tuple(keys), dict(kwk), valueType=object)
+    m = DefaultIdentityDict()
+    m[objk] = first
+    for k, v in zip(keys, vals):
+        m[k] = v
+    for n in kwn:
+        m[kwk[n]] = kwv[n]
+    try:
+        res = node.sampleGiven(m)
+    except TypeError as e:
+        if fwd_ni and rev_ni:
+            return None
+        return f"sampleGiven raised TypeError: {e}"
+    fw = [c for c in calls if c[0] == "forward"]
+    if len(fw) != 1 or list(fw[0][1]) != vals or fw[0][2] != kwv:
+        return f"{op} was applied as {calls!r}; expected one call with positional {vals!r} and keywords {kwv!r}"
+    want = "R" if not fwd_ni else ("R2" if not rev_ni else None)
+    if res != want:
+        return f"sampleGiven returned {res!r}, expected {want!r} (calls {calls!r})"
+    return None
+
+
+def replay_operator_evaluate(inputs, clause):
+    """Real evaluateInner of a node with lazily evaluated positional and keyword operands."""
+    from scenic.core.distributions import Distribution, OperatorDistribution
+    from scenic.core.lazy_eval import DelayedArgument, LazilyEvaluable
+
+    npos, kwnames = int(inputs.get("positional", 0)), list(inputs.get("keywords", []))
+
+    class Leaf(Distribution):
+        def __init__(self):
+            super().__init__()
+
+    def lazy(tag):
+        return DelayedArgument(("p",), lambda ctx: ("ctx", tag), _internal=True)
+
+    obj = Leaf()
+    ops = tuple(lazy(f"operand{i}") for i in range(npos))
+    kws = {n: lazy(f"kw:{n}") for n in kwnames}
+    node = OperatorDistribution("__call__", obj, ops, kws, valueType=object)
+    ctx = LazilyEvaluable.makeContext(p=1)
+    res = node.evaluateInner(ctx)  # an exception inside the repository is reported by the runner
+    want_ops = tuple(("ctx", f"operand{i}") for i in range(npos))
+    want_kw = {n: ("ctx", f"kw:{n}") for n in kwnames}
+    if tuple(res.operands) != want_ops or dict(res.kwoperands) != want_kw or list(res.kwoperands) != kwnames:
+        return f"evaluateInner built operands {res.operands!r} / keywords {res.kwoperands!r}; expected {want_ops!r} / {want_kw!r}"
     return None
